@@ -28,6 +28,9 @@ package main
 //@   call 0 ConfigIntDefault("sizer.jsonVersion") assert *jsonOutput && !chJSON
 //@   call 0 ConfigStringDefault("sizer.threshold") assert !chThreshold && !chVerbose && !chNoVerbose && !chCritical
 //@   call 0 ConfigStringDefault("sizer.names") assert !chNames
+// sizer.threshold "has exactly the effect of the corresponding option": it is
+// parsed like --threshold (Threshold.Set: float64)
+//@   call 0 strconv.ParseFloat assert arg_1 == 64
 //@   call 0 ConfigBoolDefault("sizer.progress") assert !chProgress && !chNoProgress
 //@   call 0 CollectReferences as refs
 //@   call 0 ScanRepositoryUsingGraph as scan
